@@ -361,6 +361,7 @@ type runState struct {
 	names    map[godi.Scope]string
 	cancels  map[string]context.CancelFunc
 	markers  map[string]string // scope name -> marker value visible in its context
+	deadlines map[string]time.Time // scope name -> deadline its context must report (zero: none)
 	provider godi.Provider
 	cur      *opCtx
 	quiet    bool
@@ -864,7 +865,18 @@ func protect(ret M, f func()) {
 	f()
 }
 
-func checkCtx(name string, s godi.Scope, o *Op, parentMarker string) bool {
+var farBase = time.Now().Add(1000 * time.Hour)
+
+// farDeadline is a deadline far in the future that is distinct for every scope name
+func farDeadline(name string) time.Time {
+	h := 0
+	for _, c := range name {
+		h = h*31 + int(c)
+	}
+	return farBase.Add(time.Duration(h%100000) * time.Second)
+}
+
+func checkCtx(name string, s godi.Scope, o *Op, parentMarker string, parentName string) bool {
 	ok := true
 	ctx := s.Context()
 	if ctx == nil {
@@ -885,8 +897,19 @@ func checkCtx(name string, s godi.Scope, o *Op, parentMarker string) bool {
 	}
 	got, _ := ctx.Value(ctxMarkerKey{}).(string)
 	ok = ok && got == want
+	// cancellation linkage, observed without cancelling anything: the scope's context reports the deadline of the
+	// context it has to be derived from (the one passed to CreateScope, else the parent scope's)
+	wantDl := R.deadlines[parentName]
+	if o.Ctx == "val" {
+		wantDl = farDeadline(name)
+	} else if o.Ctx == "bg" {
+		wantDl = time.Time{}
+	}
+	dl, has := ctx.Deadline()
+	ok = ok && has == !wantDl.IsZero() && (!has || dl.Equal(wantDl))
 	if ok {
 		R.markers[name] = got
+		R.deadlines[name] = wantDl
 	}
 	return ok
 }
@@ -976,7 +999,7 @@ func doOp(o *Op) {
 			case "bg":
 				ctx = context.Background()
 			case "val":
-				ctx, cancel = context.WithCancel(context.WithValue(context.Background(), ctxMarkerKey{}, "m-"+o.Name))
+				ctx, cancel = context.WithDeadline(context.WithValue(context.Background(), ctxMarkerKey{}, "m-"+o.Name), farDeadline(o.Name))
 			}
 			s, err := tg.CreateScope(ctx)
 			ret["err"] = classify(err)
@@ -1010,7 +1033,7 @@ func doOp(o *Op) {
 				pm = R.markers[o.Sc]
 			}
 			if ret["ctxok"] == true {
-				ret["ctxok"] = checkCtx(o.Name, s, o, pm)
+				ret["ctxok"] = checkCtx(o.Name, s, o, pm, o.Sc)
 			}
 		})
 	case "build":
@@ -1093,7 +1116,12 @@ func doOp(o *Op) {
 			cancel()
 			break
 		}
+		sctx := s.Context()
 		cancel()
+		// cancellation reaches a derived context before cancel() returns
+		if sctx == nil || sctx.Err() == nil {
+			ret["ctxok"] = false
+		}
 		live.markClosed(o.Sc)
 		select {
 		case <-ch:
@@ -1140,7 +1168,7 @@ func newRun(cfg *Cfg) *runState {
 	live.reset()
 	r := &runState{cfg: cfg, fnReg: map[string]string{}, regByID: map[string]*RegCfg{}, inv: map[string]int{},
 		closeErr: map[string]bool{}, scopes: map[string]godi.Scope{}, names: map[godi.Scope]string{},
-		cancels: map[string]context.CancelFunc{}, markers: map[string]string{}, instReg: map[int]string{},
+		cancels: map[string]context.CancelFunc{}, markers: map[string]string{}, deadlines: map[string]time.Time{}, instReg: map[int]string{},
 		waiters: map[godi.Scope]chan struct{}{}, curs: map[int64]*opCtx{}, pendingNames: map[godi.Scope]string{},
 		creating: map[int64]string{}}
 	for i := range cfg.Regs {
